@@ -16,7 +16,10 @@ func init() {
 		run:  checkC19,
 		about: "C19 (values are immutable under concurrent use): decides (a) guarded-by for the state shared by a runtime: runtime.labelMap/labels under runtime.mutex, index.imports/importsByBuild/nextUniqueID and Runtime.loaded under index.lock (reads may hold the read lock), and that an insertion made under the write lock after an optimistic read re-checks under that lock (double-checked interning); " +
 			"(b) in the import closure of cue, cue/cuecontext, encoding/json and encoding/yaml every package-level variable written outside init is a sync/atomic type, guarded per (a), or a reviewed exception; (c) the caches are concurrency-safe types, the long-lived shared structs hold no *adt.OpContext or sync.Pool, and values published through the sync.Map caches are written only by their constructors; " +
-			"(d) in package cue an OpContext is created only by newContext (fresh per API call). It does not decide the lazy finalisation of shared *adt.Vertex under concurrent readers nor sequential equivalence of results (value-level generation/status protocol).",
+			"(d) in package cue an OpContext is created only by newContext (fresh per API call); " +
+			"(e) copy-on-write: the immutable fields of adt.Environment are assigned only on a local value copy or on a freshly constructed Environment; a slice field of a shallow Vertex copy (`x := *v`) is replaced, never re-sliced in place, and its elements are written only after the field was replaced by a fresh slice (not slices.Clip / a sub-slice of the original); by-value API types of package cue never append into their own backing array unprotected; " +
+			"(f) no API read path finalizes a pattern-constraint vertex of a shared value in place (one known finding). " +
+			"It does not decide the lazy finalisation of other shared *adt.Vertex under concurrent readers nor sequential equivalence of results (value-level generation/status protocol).",
 		trust: []string{"vertex finalisation protocol (status/generation) is out of reach without alias analysis"},
 	})
 }
@@ -24,6 +27,9 @@ func init() {
 const rtP = "internal/core/runtime"
 
 func checkC19(c *Ctx) {
+	checkC19CopyOnWrite(c)
+	checkC19ValueAppend(c)
+	checkC19LazyFinalize(c)
 	c.checkLockPairing("locks.paired", rtP, adtP)
 	c.checkFieldWriters("ownership.field-writers", rtP, "index", map[string][]string{
 		"imports": {"(*Runtime).AddInst", "(*Runtime).LoadBuiltin", "newIndex"}, "importsByBuild": {"(*Runtime).AddInst", "(*Runtime).LoadBuiltin", "newIndex"},
